@@ -18,7 +18,7 @@ RULE = ("G-sim traces (1-3 host threads, 1-4 streams, kernels that start before 
 ASSUMPTIONS = ["well-formed regime (hv/wf.py)", "launch names as documented in the analyser: cudaLaunchKernel, cudaLaunchKernelExC, "
                "cudaMemcpyAsync, cudaMemsetAsync (driver-API cuLaunchKernel is not part of these statistics)",
                "pairs are those surviving the documented trimming of the trailing profiler step (hv/ref/load.py)"]
-PLAN = {"quick": {"shards": 16, "cases": 480, "timeout": 600}, "thorough": {"shards": 16, "cases": 10000, "timeout": 3000}}
+PLAN = {"quick": {"shards": 16, "cases": 960, "timeout": 600}, "thorough": {"shards": 16, "cases": 10000, "timeout": 3000}}
 FLOORS = {"quick": {"distinct_nontrivial": 120, "pairs_judged": 2500, "clipped_delays": 600, "positive_delays": 800, "memory_pairs": 500,
                     "calls_without_memory": 150, "multi_rank_calls": 100, "calls_after_history": 150},
           "thorough": {"distinct_nontrivial": 2500, "pairs_judged": 50000, "clipped_delays": 12000, "positive_delays": 16000,
@@ -59,6 +59,11 @@ def gen_case(rnd, tier: str, i: Any) -> Dict[str, Any]:
     # multi-step histories: other read-only analyses called on the same TraceAnalysis object before the statistics
     pre = rnd.sample(PRE_CALLS, rnd.choice([0, 0, 1, 2, 3]))
     return {"files": files, "cfg": {"ranks": ranks, "include_memory_events": rnd.random() < 0.6, "pre_calls": pre}}
+
+
+def fixed_cases(tier: str):
+    from hv import samples
+    return [dict(c, cfg={"ranks": [0], "include_memory_events": m, "pre_calls": []}) for c in samples.sample_cases(tier) for m in (False, True)]
 
 
 def run_case(case: Dict[str, Any], ctx: Any) -> core.CaseResult:
@@ -123,7 +128,9 @@ def run_case(case: Dict[str, Any], ctx: Any) -> core.CaseResult:
             res.counters["multi_rank_calls"] += 1
         res.nontrivial = n_pairs >= 3 and n_clip >= 1 and n_pos >= 1
         res.trivial_reason = "fewer than 3 pairs or no clipped / no positive delay"
-        res.key = core.digest([case["files"], cfg])
+        res.key = core.digest([case.get("sample") or case["files"], cfg])
+        if case.get("sample"):
+            res.counters["real_sample_traces"] += 1
         res.sample = {"cfg": cfg, "ranks_in_trace": len(models), "pairs": n_pairs, "clipped": n_clip, "positive": n_pos,
                       "rows_head": out[cfg["ranks"][0]].head(3).to_dict("records") if cfg["ranks"][0] in out else None}
     finally:
